@@ -1,0 +1,168 @@
+//go:build verif
+
+// Contracts for the verifier in /verif (comment-only file; compiled only with -tags verif).
+
+package tls
+
+// C28: GetOutKeystream. With the stream idealisation of cipher.AEAD.Seal (trusted/crypto.vc: ciphertext byte j ==
+// plaintext byte j XOR aead_ks(aead, nonce, j)) the result is exactly the keystream the out-cipher produces for
+// the current sequence number, and nothing reachable from the connection changes (modifies nothing).
+//@ spec seqstr(hc) = str8(hc.seq[0], hc.seq[1], hc.seq[2], hc.seq[3], hc.seq[4], hc.seq[5], hc.seq[6], hc.seq[7])
+
+//@ func (*UConn).GetOutKeystream
+//@   property C28
+//@   let c = uconn.out.cipher
+//@   requires uconn != nil && uconn.Conn != nil
+//@   requires length >= 0
+//@   modifies nothing
+//@   ensures aeadok: implements(c, cipher.AEAD) ==> ret1 == nil
+//@   ensures notaead: !implements(c, cipher.AEAD) ==> ret0 == nil && ret1 != nil
+//@   ensures nocipher: c == nil || istype(c, *rc4.Cipher) || istype(c, *cipher.cbcEncrypter) || istype(c, *cipher.cbcDecrypter) ==> ret1 != nil
+//@   ensures utlsaeads: istype(c, *prefixNonceAEAD) || istype(c, *xorNonceAEAD) ==> ret1 == nil
+//@   ensures len: ret1 == nil ==> len(ret0) == length + aead_overhead(val(c))
+//@   ensures ks: ret1 == nil ==> forall j in 0..length: ret0[j] == aead_ks(val(c), seqstr(uconn.out), j)
+//@   at before call Seal#0: assert recv: arg0 == uconn.out.cipher
+//@   at before call Seal#0: assert nonce: len(arg2) == 8 && forall k in 0..8: arg2[k] == uconn.out.seq[k]
+//@   at before call Seal#0: assert zeros: isnil(arg1) && isnil(arg4) && len(arg3) == length && zeroed(arg3, 0, length)
+
+// ---------------------------------------------------------------------------------------------
+// C35 (ticket part): (*Config).encryptTicket / decryptTicket.
+
+//@ func (*Config).rand
+//@   property C35
+//@   requires c != nil
+//@   pure
+//@   ensures set: c.Rand != nil ==> ret == c.Rand
+//@   ensures dflt: c.Rand == nil ==> ret == rand.Reader
+
+//@ spec s16(x) = str16(x[0], x[1], x[2], x[3], x[4], x[5], x[6], x[7], x[8], x[9], x[10], x[11], x[12], x[13], x[14], x[15])
+//@ spec tmsg(e) = hcat(0, strid(string(e[0:len(e)-32])))
+//@ spec tkeymatch(e, keys, k) = forall j in 0..32: e[len(e)-32+j] == hmac_byte(strid(s16(keys[k].hmacKey)), tmsg(e), j)
+//@ spec tplain(e, keys, k, r) = len(r) == len(e)-48 && forall j in 0..len(e)-48: r[j] == ctr_byte(strid(s16(keys[k].aesKey)), strid(s16(e)), j, e[16+j])
+
+//@ func (*Config).encryptTicket
+//@   property C35
+//@   let n = len(state)
+//@   let rd = ite(c.Rand != nil, c.Rand, rand.Reader)
+//@   requires c != nil
+//@   requires rd != nil
+//@   assume-pure Error
+//@   modifies ghost(rdpos, rd)
+//@   ensures nokeys: len(ticketKeys) == 0 ==> ret0 == nil && ret1 != nil
+//@   ensures err: ret1 != nil ==> ret0 == nil
+//@   ensures len: ret1 == nil ==> len(ret0) == 16 + n + 32 && fresh(ret0)
+//@   ensures ct: ret1 == nil ==> forall j in 0..n: ret0[16+j] == ctr_byte(strid(s16(ticketKeys[0].aesKey)), strid(s16(ret0)), j, state[j])
+//@   ensures mac: ret1 == nil ==> forall j in 0..32: ret0[16+n+j] == hmac_byte(strid(s16(ticketKeys[0].hmacKey)), ghost(hmacmsg, callres(hmac.New, 0)), j)
+//@   at before call ReadFull#0: assert ivbuf: arg1 == encrypted[0:16]
+//@   at before call NewCipher#0: assert aeskey: len(arg0) == 16 && forall k in 0..16: arg0[k] == ticketKeys[0].aesKey[k]
+//@   at before call NewCTR#0: assert ctriv: arg1 == encrypted[0:16]
+//@   at before call XORKeyStream#0: assert ctrio: arg1 == encrypted[16:len(encrypted)-32] && arg2 == state
+//@   at before call hmac.New#0: assert mackey: len(arg1) == 16 && forall k in 0..16: arg1[k] == ticketKeys[0].hmacKey[k]
+//@   at before call hmac.New#0: assume sha256size: digest_size(val(arg0)) == 32
+//@   at before call Write#0: assert macinput: arg1 == encrypted[0:len(encrypted)-32]
+//@   at after call Write#0: assert macmsg: ghost(hmacmsg, arg0) == hcat(0, strid(string(encrypted[0:len(encrypted)-32])))
+//@   at before call Sum#0: assert macoutput: arr(arg1) == arr(encrypted) && off(arg1) == off(encrypted) + len(encrypted) - 32 && len(arg1) == 0 && cap(arg1) == 32
+
+//@ func (*Config).decryptTicket
+//@   property C35
+//@   let n = len(encrypted)
+//@   modifies nothing
+//@   ensures short: n < 48 ==> ret == nil
+//@   ensures len: ret != nil ==> len(ret) == n - 48 && fresh(ret)
+//@   ensures nokeys: len(ticketKeys) == 0 ==> ret == nil
+//@   ensures authentic: ret != nil ==> exists k in 0..len(ticketKeys): tkeymatch(encrypted, ticketKeys, k) && (forall m in 0..k: !tkeymatch(encrypted, ticketKeys, m)) && tplain(encrypted, ticketKeys, k, ret)
+//@   ensures reject: (forall k in 0..len(ticketKeys): !tkeymatch(encrypted, ticketKeys, k)) ==> ret == nil
+//@   at before call hmac.New#0: assert mackey: len(arg1) == 16 && forall k in 0..16: arg1[k] == ticketKeys[$rangeindex+1].hmacKey[k]
+//@   at before call hmac.New#0: assume sha256size: digest_size(val(arg0)) == 32
+//@   at before call Write#0: assert macinput: arg1 == encrypted[0:len(encrypted)-32]
+//@   at before call ConstantTimeCompare#0: assert macbytes: arg0 == encrypted[len(encrypted)-32:len(encrypted)]
+//@   at before call NewCTR#0: assert ctriv: arg1 == encrypted[0:16]
+//@   at before call XORKeyStream#0: assert ctrio: arg2 == encrypted[16:len(encrypted)-32] && len(arg1) == len(arg2) && fresh(arg1)
+//@   loop 0 invariant -1 <= $rangeindex && $rangeindex < len(ticketKeys)
+//@   loop 0 invariant forall m in 0..$k: !tkeymatch(encrypted, ticketKeys, m)
+
+// ---------------------------------------------------------------------------------------------
+// C27: MakeConnWithCompleteHandshake and the halfConn helpers it uses.
+
+// The TLS 1.0-1.2 key expansion (prf.go) is not verified; only its frame is assumed. Its six results are,
+// in order, clientMAC, serverMAC, clientKey, serverKey, clientIV, serverIV.
+// prfAndHashForVersion panics ("unknown version") for every version other than TLS 1.0/1.1/1.2.
+//@ trusted func keysFromMasterSecret
+//@   requires suite != nil
+//@   panics when version != VersionTLS10 && version != VersionTLS11 && version != VersionTLS12
+//@   modifies nothing
+
+//@ func (*halfConn).prepareCipherSpec
+//@   property C27
+//@   requires hc != nil
+//@   modifies hc.version, hc.nextCipher, hc.nextMac
+//@   ensures set: hc.version == version && hc.nextCipher == cipher && hc.nextMac == mac
+
+//@ func (*halfConn).changeCipherSpec
+//@   property C27
+//@   let fail = hc.nextCipher == nil || hc.version == VersionTLS13
+//@   requires hc != nil
+//@   modifies hc.cipher, hc.mac, hc.nextCipher, hc.nextMac, hc.seq
+//@   ensures refused: fail ==> ret != nil && hc.cipher == old(hc.cipher) && hc.mac == old(hc.mac) && hc.nextCipher == old(hc.nextCipher) && hc.nextMac == old(hc.nextMac)
+//@   ensures refusedseq: fail ==> forall j in 0..8: hc.seq[j] == old(hc.seq[j])
+//@   ensures switched: !fail ==> ret == nil && hc.cipher == old(hc.nextCipher) && hc.mac == old(hc.nextMac) && hc.nextCipher == nil && hc.nextMac == nil
+//@   ensures seqzero: !fail ==> forall j in 0..8: hc.seq[j] == 0
+//@   loop 0 invariant -1 <= $rangeindex && $rangeindex < 8
+//@   loop 0 invariant forall j in 0..$k: hc.seq[j] == 0
+//@   loop 0 invariant hc.cipher == old(hc.nextCipher) && hc.mac == old(hc.nextMac) && hc.nextCipher == nil && hc.nextMac == nil
+
+//@ func (*halfConn).incSeq
+//@   property C27 C28
+//@   requires hc != nil
+//@   panics when hc.seq[0] == 255 && hc.seq[1] == 255 && hc.seq[2] == 255 && hc.seq[3] == 255 && hc.seq[4] == 255 && hc.seq[5] == 255 && hc.seq[6] == 255 && hc.seq[7] == 255
+//@   modifies hc.seq
+//@   ensures carry: forall j in 0..8: (forall k in j+1..8: old(hc.seq[k]) == 255) ==> hc.seq[j] == (old(hc.seq[j]) + 1) % 256
+//@   ensures keep: forall j in 0..8: (exists k in j+1..8: old(hc.seq[k]) != 255) ==> hc.seq[j] == old(hc.seq[j])
+//@   loop 0 invariant -1 <= i && i <= 7
+//@   loop 0 invariant forall j in i+1..8: old(hc.seq[j]) == 255 && hc.seq[j] == 0
+//@   loop 0 invariant forall j in 0..i+1: hc.seq[j] == old(hc.seq[j])
+
+// installed(hc, version, c, m): state of a half connection after prepareCipherSpec(version, c, m) and
+// changeCipherSpec() on a fresh halfConn. changeCipherSpec refuses (its error is ignored by the caller) when
+// c is nil or version is TLS 1.3; the half connection then stays in plaintext.
+//@ spec refuses(version, c) = c == nil || version == VersionTLS13
+//@ spec installed(hc, version, c, m) = hc.version == version && (refuses(version, c) ==> hc.cipher == nil && hc.mac == nil && hc.nextCipher == c && hc.nextMac == m) && (!refuses(version, c) ==> hc.cipher == c && hc.mac == m && hc.nextCipher == nil && hc.nextMac == nil)
+//@ spec seqone(hc) = hc.seq[0] == 0 && hc.seq[1] == 0 && hc.seq[2] == 0 && hc.seq[3] == 0 && hc.seq[4] == 0 && hc.seq[5] == 0 && hc.seq[6] == 0 && hc.seq[7] == 1
+
+// Mirror property of the key wiring. cipher#0/mac#0/aead#0 are the constructor calls fed with the CLIENT write
+// key block, cipher#1/mac#1/aead#1 the ones fed with the SERVER write key block (anchors *_key, *_mac).
+// A client must WRITE with the client block and READ with the server block, a server the opposite
+// (ensures wire_*), and the CBC constructor must be told the direction: isRead == false for the object
+// installed in `out`, isRead == true for the one installed in `in` (anchors dir_*).
+// DEFECT_C27_dir_client_out is refuted by the code: cipher#0 is always built with isRead == true, so for
+// isClient == true and any CBC suite the write side is a CBC *decrypter* (and, symmetrically, cipher#1 is
+// always built with isRead == false, so the client's read side is a CBC *encrypter*: that second clause
+// "at before call cipher#1: isClient ==> arg2" is not listed because the generator assumes a failed
+// assertion afterwards, which makes it vacuous). The server role is wired correctly.
+//@ func MakeConnWithCompleteHandshake
+//@   property C27
+//@   let S = utlsSupportedCipherSuites
+//@   requires nonnil: forall i in 0..len(S): S[i] != nil
+//@   requires table: forall i in 0..len(S): (S[i].cipher != nil && S[i].mac != nil) || (S[i].cipher == nil && S[i].aead != nil)
+//@   assume-pure cipher mac aead
+//@   panics when (exists i in 0..len(utlsSupportedCipherSuites): utlsSupportedCipherSuites[i].id == cipherSuite) && version != VersionTLS10 && version != VersionTLS11 && version != VersionTLS12
+//@   modifies nothing
+//@   ensures unsupported: (forall i in 0..len(S): S[i].id != cipherSuite) ==> ret == nil
+//@   ensures supported: (exists i in 0..len(S): S[i].id == cipherSuite) ==> ret != nil && fresh(ret)
+//@   ensures nilsuite: ret == nil <==> callres(cipherSuiteByID, 0) == nil
+//@   ensures state: ret != nil ==> ret.vers == version && ret.haveVers && ret.isClient == isClient && ret.cipherSuite == cipherSuite && ret.isHandshakeComplete.v == 1 && ret.conn == tcpConn && ret.config != nil
+//@   ensures seq: ret != nil ==> seqone(ret.in) && seqone(ret.out)
+//@   ensures wire_cbc_out: ret != nil && callres(cipherSuiteByID, 0).cipher != nil ==> installed(ret.out, version, ite(isClient, callres(cipher, 0), callres(cipher, 1)), ite(isClient, callres(mac, 0), callres(mac, 1)))
+//@   ensures wire_cbc_in: ret != nil && callres(cipherSuiteByID, 0).cipher != nil ==> installed(ret.in, version, ite(isClient, callres(cipher, 1), callres(cipher, 0)), ite(isClient, callres(mac, 1), callres(mac, 0)))
+//@   ensures wire_aead_out: ret != nil && callres(cipherSuiteByID, 0).cipher == nil ==> installed(ret.out, version, ite(isClient, callres(aead, 0), callres(aead, 1)), nil)
+//@   ensures wire_aead_in: ret != nil && callres(cipherSuiteByID, 0).cipher == nil ==> installed(ret.in, version, ite(isClient, callres(aead, 1), callres(aead, 0)), nil)
+//@   at before call keysFromMasterSecret#0: assert kdfargs: arg0 == version && arg1 == cs && arg2 == masterSecret && arg3 == clientRandom && arg4 == serverRandom && arg5 == cs.macLen && arg6 == cs.keyLen && arg7 == cs.ivLen
+//@   at before call cipher#0: assert cbc_client_key: arg0 == clientKey && arg1 == clientIV
+//@   at before call mac#0: assert cbc_client_mac: arg0 == clientMAC
+//@   at before call cipher#1: assert cbc_server_key: arg0 == serverKey && arg1 == serverIV
+//@   at before call mac#1: assert cbc_server_mac: arg0 == serverMAC
+//@   at before call aead#0: assert aead_client_key: arg0 == clientKey && arg1 == clientIV
+//@   at before call aead#1: assert aead_server_key: arg0 == serverKey && arg1 == serverIV
+//@   at before call cipher#0: assert dir_server_in: !isClient ==> arg2
+//@   at before call cipher#1: assert dir_server_out: !isClient ==> !arg2
+//@   at before call cipher#0: assert DEFECT_C27_dir_client_out: isClient ==> !arg2
